@@ -35,6 +35,12 @@ def run(tier):
     guards_real(chk, F, fns)
     scalar_operand(chk, F)
     field_traits(chk, F)
+    # the element operations the routines perform on their entries (+ - * / in owned/borrowed forms, compound assignment as in
+    # `zw[p] -= h`, negation) are the operations of the truncated algebra, also when a derivative part is absent
+    from . import container, c08
+    container.check_L1(chk, F)
+    for ty in TYPES:
+        c08.check_type(chk, F, ty, thorough=False, dual_only=True)
     from . import c12_loops
     c12_loops.run_loops(chk, F)
     chk.floor("loop-body update statements checked", chk.analysed.get("loop-body update statements checked", 0), 30)
